@@ -96,6 +96,8 @@ def check_predicates(acc, enc, cont, shape, vals):
     from skactiveml.utils import is_labeled, is_unlabeled, labeled_indices, unlabeled_indices
 
     name, alphabet, ml, dtype = enc
+    if cont == "list" and len(shape) == 2 and shape[0] == 0:
+        shape = (0,)  # an empty nested list carries no second dimension
     key = ("pred", name, cont, tuple(shape), tuple(repr(v) for v in vals))
     y = mk(list(vals), shape, dtype, cont)
     wit = {"encoding": name, "container": cont, "shape": list(shape), "values": [repr(v) for v in vals], "missing_label": repr(ml)}
@@ -114,7 +116,7 @@ def check_predicates(acc, enc, cont, shape, vals):
         acc.reject("TypeError: sentinel incompatible with dtype (check_missing_label)")
         return
     except ValueError as e:
-        if len(shape) == 2 and 0 in shape and "must be of shape" in str(e):
+        if len(shape) == 2 and shape[1] == 0 and "must be of shape" in str(e):
             acc.case(key, trivial=True)
             acc.reject("ValueError: 2-D array with empty axis")
             return
@@ -133,8 +135,7 @@ def check_predicates(acc, enc, cont, shape, vals):
     if u.dtype != bool or l.dtype != bool:
         acc.violation("is_unlabeled", "mask_not_boolean", "%s %s" % (u.dtype, l.dtype), wit, replay=rep, size=size)
     if u.shape != ref.shape or l.shape != ref.shape:
-        if not (ref.size == 0 and u.size == 0 and l.size == 0):
-            acc.violation("is_unlabeled", "mask_shape", "%s vs %s" % (u.shape, ref.shape), wit, replay=rep, size=size)
+        acc.violation("is_unlabeled", "mask_shape", "mask shapes %s / %s for an input of shape %s" % (u.shape, l.shape, ref.shape), wit, replay=rep, size=size)
         return
     if not np.array_equal(u, ref):
         acc.violation("is_unlabeled", "wrong_mask", "is_unlabeled=%s expected %s" % (u.tolist(), ref.tolist()), wit, replay=rep, size=size)
@@ -148,6 +149,10 @@ def check_predicates(acc, enc, cont, shape, vals):
         eu = [[i, j] for i in range(shape[0]) for j in range(shape[1]) if ref[i, j]]
         el = [[i, j] for i in range(shape[0]) for j in range(shape[1]) if not ref[i, j]]
         okshape = True
+    exp_idx_shape = (len(eu),) if len(shape) == 1 else (len(eu), 2)
+    if np.asarray(ui).shape != exp_idx_shape or np.asarray(li).shape != ((len(el),) if len(shape) == 1 else (len(el), 2)):
+        acc.violation("unlabeled_indices", "indices_shape", "index arrays of shape %s / %s for an input of shape %s with %d missing entries" % (
+            np.asarray(ui).shape, np.asarray(li).shape, tuple(shape), len(eu)), wit, replay=rep, size=size)
     if not okshape or np.asarray(ui).tolist() != eu:
         acc.violation("unlabeled_indices", "wrong_indices", "%s expected %s" % (np.asarray(ui).tolist(), eu), wit, replay=rep, size=size)
     if not okshape or np.asarray(li).tolist() != el:
@@ -159,6 +164,9 @@ def check_encoder(acc, enc, cont, shape, vals, cmode, shape2, vals2):
     from skactiveml.utils import ExtLabelEncoder
 
     name, alphabet, ml, dtype = enc
+    if cont == "list":
+        shape = (0,) if (len(shape) == 2 and shape[0] == 0) else shape
+        shape2 = (0,) if (len(shape2) == 2 and shape2[0] == 0) else shape2
     classes_all = [v for v in alphabet if not is_missing(v, ml)]
     if cmode == "None":
         classes = None
@@ -193,9 +201,9 @@ def check_encoder(acc, enc, cont, shape, vals, cmode, shape2, vals2):
         acc.reject("TypeError: sentinel incompatible with dtype (check_missing_label)")
         return
     except Exception as e:
-        if len(shape) == 2 and 0 in shape or len(shape2) == 2 and 0 in shape2:
+        if (len(shape) == 2 and shape[1] == 0) or (len(shape2) == 2 and shape2[1] == 0):
             acc.case(key, trivial=True)
-            acc.reject("2-D array with empty axis rejected")
+            acc.reject("2-D array with empty second axis rejected")
             return
         acc.case(key)
         acc.violation("ExtLabelEncoder", "exception:" + type(e).__name__, str(e)[:200], wit, replay=rep, size=size)
@@ -249,10 +257,10 @@ def run_shard(spec):
             check_predicates(acc, enc, cont, tuple(shape), vals)
     # encoder machine
     fit_arrays = [((L,), v) for L in range(0, b["encoder_fit_len"] + 1) for v in itertools.product(A, repeat=L)]
-    fit_arrays += [((1, 2), v) for v in itertools.product(A, repeat=2)]
+    fit_arrays += [((1, 2), v) for v in itertools.product(A, repeat=2)] + [((0, 2), ())]
     fit_2x2 = [((2, 2), v) for v in itertools.product(A, repeat=4)]
     tr_arrays = [((L,), v) for L in range(0, b["encoder_transform_len"] + 1) for v in itertools.product(A, repeat=L)]
-    tr_arrays += [((2, 1), v) for v in itertools.product(A, repeat=2)]
+    tr_arrays += [((2, 1), v) for v in itertools.product(A, repeat=2)] + [((0, 2), ())]
     tr_small = [((L,), v) for L in range(0, 2) for v in itertools.product(A, repeat=L)]
     for shape, vals in fit_arrays:
         for cmode in b["classes_modes"]:
